@@ -313,7 +313,9 @@ def gen_ym(tree):
         return (same(s, 'y = int(y) if is_float(y) and int(y) == y else y') or same(s, 'm = month(m)')
                 or same(s, 'd = int(d) if is_float(d) and int(d) == d else d')
                 # C04-D7: numpy integers too are turned into python ints (the identity on the integers the model ranges over)
-                or same(s, 'd = int(d) if is_int(d) or (is_float(d) and int(d) == d) else d'))
+                or same(s, 'd = int(d) if is_int(d) or (is_float(d) and int(d) == d) else d')
+                # C04-D8: the same for the year (an unsigned numpy year overflowed in `y += (m-1) // 12`)
+                or same(s, 'y = int(y) if is_int(y) or (is_float(y) and int(y) == y) else y'))
 
     def ret_pair(v, env):
         if not (isinstance(v, ast.Tuple) and len(v.elts) == 2):
